@@ -18,7 +18,7 @@ ID = 'C12'
 KINDS = {
     'div': (False, None), 'section#s.k': (False, '#s.k'), 'span': (False, None), 'em{u v}': (False, None), 'p{t}': (False, None),
     '#i1': (False, '#i1'), '.c1': (False, '.c1'), 'br/': (True, None), 'img': (True, None), 'ul': (False, None),
-    'span.c2{w}': (False, '.c2'), 'li': (False, None),
+    'span.c2{w}': (False, '.c2'), 'li': (False, None), 'p{l1\nl2}': (False, None),
 }
 XSL_KINDS = {
     'xsl:variable[name=n select=s]': (False, None), 'xsl:with-param[name=n select=s]': (False, None), 'var': (False, None),
@@ -69,7 +69,8 @@ def describe(tier):
              'Transition = one production / one option toggle.' % (list(KINDS), list(XSL_KINDS), list(OPTION_SPACE), b['sweeps']),
         nontrivial='at least one option deviates from the default (two outputs are compared).',
         bounds=b,
-        assumptions=['text-only nodes with children, elements listed in formatSkip (indent clause) and compactBoolean are left unspecified',
+        assumptions=['text-only nodes with children, elements listed in formatSkip (indent clause), whitespace-only lines (e.g. the blank '
+                     'line after multi-line text that is followed by children) and compactBoolean are left unspecified',
                      'bem.enabled is not in the lattice (BEM rewrites class values by design)'],
         explanation='Every case is expanded twice by emmet.expand (option set vs unformatted baseline) and both outputs are read by the '
                     'independent lexer.',
@@ -216,7 +217,7 @@ def check(seq, labels, syntax, opts):
         pos = 0
         first = True
         for line in out.split(nl):
-            if not first:
+            if not first and line.strip():      # whitespace-only lines carry no tag or text: left unspecified
                 d = sum(c for off, c in changes if off <= pos)
                 rest = line.lstrip(' \t')
                 if rest.startswith('</'):
